@@ -225,6 +225,9 @@ pub fn catalog() -> &'static Vec<FnInfo> {
             vectors.sort();
             out.push(FnInfo { name, udf, vectors, candidates });
         }
+        // harness-owned function that makes the transported ConfigOptions observable (only `to_unixtime` among
+        // the built-ins reads them at invocation time)
+        out.push(FnInfo { name: "vf_config_echo".into(), udf: Arc::new(ScalarUDF::new_from_impl(ConfigEcho::new())), vectors: vec![vec![]], candidates: 1 });
         out
     })
 }
@@ -387,3 +390,36 @@ pub fn arg_value(name: &str, pos: usize, t: &Ty) -> BoxedStrategy<V> {
     prop_oneof![1 => Just(V::Null), 7 => base].boxed()
 }
 
+
+
+// ---------------------------------------------------------------------------------------------
+
+/// `vf_config_echo()` → "<execution.time_zone>|<execution.batch_size>|<number_rows>" as a Utf8 array of
+/// `number_rows` rows
+#[derive(Debug, PartialEq, Eq, Hash)]
+pub struct ConfigEcho {
+    signature: datafusion::logical_expr::Signature,
+}
+
+impl ConfigEcho {
+    pub fn new() -> Self {
+        ConfigEcho { signature: datafusion::logical_expr::Signature::nullary(datafusion::logical_expr::Volatility::Stable) }
+    }
+}
+
+impl datafusion::logical_expr::ScalarUDFImpl for ConfigEcho {
+    fn name(&self) -> &str {
+        "vf_config_echo"
+    }
+    fn signature(&self) -> &datafusion::logical_expr::Signature {
+        &self.signature
+    }
+    fn return_type(&self, _arg_types: &[arrow::datatypes::DataType]) -> datafusion::common::Result<arrow::datatypes::DataType> {
+        Ok(arrow::datatypes::DataType::Utf8)
+    }
+    fn invoke_with_args(&self, args: datafusion::logical_expr::ScalarFunctionArgs) -> datafusion::common::Result<datafusion::logical_expr::ColumnarValue> {
+        let text = format!("{:?}|{}|{}", args.config_options.execution.time_zone, args.config_options.execution.batch_size, args.number_rows);
+        let arr = arrow::array::StringArray::from(vec![text; args.number_rows]);
+        Ok(datafusion::logical_expr::ColumnarValue::Array(Arc::new(arr)))
+    }
+}
